@@ -276,6 +276,7 @@ SCENARIO_FEATURES = (
     "uncrossed-transition",              # an uncrossed Transition factor with a constraint on it
     "strided-window-constrained",        # an uncrossed Window with stride 2-3 that a constraint keeps in the encoding
     "repeat-three",                      # Repeat to three (or three and a bit) repetitions
+    "order-constraint-partial",          # LatinSquare / Sequential with a trial count that leaves a partial segment
 )
 
 
@@ -358,6 +359,13 @@ def scenario_spec(draw, c=None):
     spec["block"] = block
     T = estimate_T(spec) or 3
     Sz = max(1, T - (1 if any(d["name"] in crossing and d["kind"] != "within" for d in derived) else 0))
+    if "order-constraint-partial" in feats and not any(l[1] > 1 for f in factors for l in f["levels"]):
+        if draw(st.booleans()):
+            constraints.append({"kind": "latin", "factors": draw(st.sampled_from([["A", "B"], ["B", "A"]]))})
+        else:
+            constraints.append({"kind": "sequential", "factor": draw(st.sampled_from(["A", "B"]))})
+        if not ({"min-leftover", "min-multiple"} & feats):
+            feats.add("min-leftover")
     for feat, kinds in (("run-length", ("atmost", "atleast", "exactly_row")), ("pin", ("pin",)), ("exactly-k", ("exactly_k",))):
         if feat in feats:
             constraints.append(draw(constraint(c, spec, T, names, kinds=kinds)))
